@@ -43,7 +43,9 @@ P = {
             'account, granted to another contract; ICS-20: receiver list, other denomination, unbounded sentinel, allocation exhausted); '
             '(2) random histories of 4-9 transactions (1-3 calls each) mixing approve / increase / decrease / revoke by the signer '
             'directly and through contracts, spends by grantee contracts, distribution calls and time jumps up to past the one-year '
-            'approval expiration. Every matrix cell also yields an identity-verdict case (did the identity check reject?). '
+            'approval expiration. Every matrix cell also yields an identity-verdict case (did the identity check reject?). createValidator stakes the named '
+            'account\'s coins and no authorization covers MsgCreateValidator: any effect of it by a caller that is not the signer is '
+            'reported as a spend without a grant (F10: accepted by /repo before c43fab9). '
             'non-trivial = at least one precompile call succeeded (identity cases: always); distinct = distinct inputs',
     'trusted_base': [
         'Coq 8.16.1 kernel incl. vm_compute (no native_compute); std++ 1.8.0 gmap/gset',
